@@ -54,13 +54,17 @@ IsStep == ev.ev \in StepEvents
 (* C19 *)
 C19_BurnExact == IsStep => BurnStepOK(R)
 C19_BurnGuard == IsStep => BurnGuardOK(R)
-(* C18.  An event that bin/vcheck marked as an instance of a listed known finding skips exactly the *)
-(* invariant its deviation belongs to: a quorum completed by well-formed signatures that do not     *)
-(* verify (quorum = "forged"), or a fee credited to nobody while a signer's stake is below the      *)
-(* minimum (fee_credit = "none", unstaked_signer).                                                   *)
-C18_MintQuorum == (IsStep /\ ~(IsKnown(ev) /\ ev.ev = "Mint" /\ ev.quorum = "forged")) => MintQuorumOK(R)
+(* C18.  An event that bin/vcheck marked as an instance of a listed known finding (known_findings.jsonl) *)
+(* skips exactly the invariant of that deviation: a successful mint whose fee was credited to nobody     *)
+(* (fee_credited = FALSE, fee_credit = "none") while a signing authorizer's stake is below the pool's    *)
+(* minimum (auth_understaked).  Everything else about such an event is still checked.                    *)
+C18_MintQuorum == IsStep => MintQuorumOK(R)
 C18_NonceOnce == IsStep => MintNonceOK(R)
-C18_MintAmounts == (IsStep /\ ~(IsKnown(ev) /\ ev.ev = "Mint" /\ ev.fee_credit = "none" /\ ev.unstaked_signer)) => MintAmountsOK(R)
+KnownFeeUncredited == IsKnown(ev) /\ ev.ev = "Mint" /\ ev.class = "ok" /\ ~ev.fee_credited /\ ev.fee_credit = "none" /\ ev.auth_understaked
+C18_MintAmounts == (IsStep /\ ~KnownFeeUncredited) => MintAmountsOK(R)
+\* what must hold even for the known deviation: receiver and wallet move together, nothing else moves
+C18_MintAmountsKnown == (IsStep /\ KnownFeeUncredited) =>
+    (R.dWallet = -R.dClient /\ ~R.others /\ R.dClient >= 0 /\ R.dClient <= R.amt /\ R.credited = 0)
 
 (* harness guards: the projection is complete, and the driver's input classification agrees with the spec's *)
 HarnessProjection == IsStep => (DOMAIN post.burn = DOMAIN pre.burn /\ DOMAIN post.rewards = DOMAIN pre.rewards)
